@@ -55,7 +55,8 @@ class C20(Prop):
         for i in range(n):
             if i % 3 != 2:
                 d = gen_d(rng, 0, [rng.choice([4, 8, 14])])
-                ops = ["text %d" % rng.choice([0, 0, 1, 3]), "texts %d" % rng.choice([0, 2])]
+                ops = ["text %d" % rng.choice([0, 0, 1, 3]), "texts %d" % rng.choice([0, 2]),
+                       "textsub %d %d" % (rng.randint(1, 5), rng.choice([0, 0, 2]))]      # a subtree still attached
                 for vis in range(4):
                     for col in "01":
                         ops.append("dot %d %s" % (vis, col))
@@ -112,17 +113,25 @@ class C20(Prop):
                 continue
             if cur is None:
                 continue
-            if l.startswith("X "):
+            if l.startswith("X") and (l == "X" or l.startswith("X ")):
                 got = l[2:].split()
                 exp = []
+                top, ind = d, int(cur[1])
+                if cur[0] == "textsub":      # the k-th behaviour in pre-order, rendered while attached to its parent
+                    k = int(cur[1])
+                    ind = int(cur[2])
+                    if k >= len(nodes):
+                        continue
+                    top = nodes[k]
 
                 def walk(x, depth):
-                    exp.append("%d:%s" % (4 * (int(cur[1]) + depth), rd_impl.enc_name(rd_impl.dec_name(x[0]).replace("\n", " "))))
+                    exp.append("%d:%s" % (4 * (ind + depth), rd_impl.enc_name(rd_impl.dec_name(x[0]).replace("\n", " "))))
                     for k in x[3]:
                         walk(k, depth + 1)
-                walk(d, 0)
-                if len(got) != len(nodes):
-                    out.append(viol("one-line-per-behaviour", "%d lines for %d behaviours" % (len(got), len(nodes))))
+                walk(top, 0)
+                if len(got) != len(d_nodes(top)):
+                    out.append(viol("one-line-per-behaviour", "`%s`: %d lines for %d behaviours"
+                                    % (" ".join(cur), len(got), len(d_nodes(top)))))
                 elif got != exp:
                     out.append(viol("text-order-indent", "text tree %s, expected %s" % (got[:6], exp[:6])))
             elif l.startswith("N "):
